@@ -1440,7 +1440,17 @@ def P25(m, R):
                 except Undecided:
                     ok = None
     if ok is None:
-        R.undecided(tl, tl.node, 'token conversion of to_list not recognised', construct='to_list tokens')
+        # pieces filtered by their truth value before they are converted: an empty field is a piece too (it is what makes "1;" or ";31" unparsable)
+        filt = [c_ for c_ in ast.walk(tl.node) if isinstance(c_, (ast.ListComp, ast.GeneratorExp)) and c_.generators and
+                any(isinstance(t_, ast.Name) and any(t_.id == x.id for g_ in c_.generators for x in ast.walk(g_.target) if isinstance(x, ast.Name))
+                    for g_ in c_.generators for t_ in g_.ifs)] + \
+               [n_ for n_ in ast.walk(tl.node) if isinstance(n_, ast.If) and isinstance(n_.test, ast.UnaryOp) and isinstance(n_.test.op, ast.Not) and
+                isinstance(n_.test.operand, ast.Name) and len(n_.body) == 1 and isinstance(n_.body[0], ast.Continue)]
+        if filt:
+            R.viol(tl, filt[0], 'to_list leaves out the pieces that are empty (%s): the text "1;" / ";31" / "38;5;;7" loses its empty field, every remaining piece is an '
+                                'integer, and parsable answers True for a text that is not one complete parameter group' % short(filt[0]), construct='to_list tokens')
+        else:
+            R.undecided(tl, tl.node, 'token conversion of to_list not recognised', construct='to_list tokens')
     else:
         R.check(ok, tl, lp3 or tl.node, 'to_list keeps every ;-separated token once: as int when it converts, as text otherwise', why, construct='to_list tokens')
 
